@@ -38,12 +38,12 @@ type patch struct {
 }
 
 type c05Case struct {
-	ID      int     `json:"id"`
-	Seed    string  `json:"seed"` // path of the seed image
-	Patches []patch `json:"patches"`
-	Trunc   int     `json:"trunc"`   // -1: keep length
-	Journal string  `json:"journal"` // "", "absent", or hex bytes
-	File    bool    `json:"file"`    // also run the file pager + driver paths
+	ID      int      `json:"id"`
+	Seed    string   `json:"seed"` // path of the seed image
+	Patches []patch  `json:"patches"`
+	Trunc   int      `json:"trunc"`   // -1: keep length
+	Journal string   `json:"journal"` // "", "absent", or hex bytes
+	File    bool     `json:"file"`    // also run the file pager + driver paths
 	Kinds   []string `json:"kinds"`
 	Hints   []string `json:"hints"`
 }
